@@ -28,6 +28,69 @@ def norm(file, kind, name, *opts):
     sys.stdout.write(text + '\n')
     sys.stderr.write(str(applied) + '\n')
 
+
+
+NOT_APPLICABLE = {
+    'C02': 'postcondition of BPETokenizer::merge_bytes: regex match iterator + BinaryHeap of 6-tuples + filter_map/find closures over enumerate().zip(); Verus rejects the text and Kani cannot construct a Regex receiver; no contract within reach decides it (DESIGN 7)',
+    'C03': 'same function as C02 (canonical merge order is an invariant of the heap loop in merge_bytes); not expressible without rewriting the loop, which would be a model (DESIGN 7)',
+    'C05': 'all-schedules property of threaded code (Mutex, AtomicUsize spin, sync_channel); Kani has no threads, Verus only verifies concurrency written with its own permission types (DESIGN 7)',
+    'C08': 'whole-pipeline / history / schedule property through pyo3 classes, threads and files; no per-call contract expresses it (DESIGN 7)',
+    'C09': 'drop / panic / bounded-lookahead property of background threads; history property with no per-call contract (DESIGN 7)',
+    'C14': 'logic lives in a move-closure owning a ChaCha8 generator inside an iterator chain; not extractable as a function under contract (DESIGN 7)',
+    'C19': 'train_bpe = worker threads + file I/O + HashMap entry closures; greedy optimality is a whole-loop invariant over it (DESIGN 7)',
+    'C20': 'Dictionary::create = threads + files + regex + BinaryHeap in one function; get_closest is float comparison over HashMap iteration order (DESIGN 7)',
+}
+
+
+def manifest():
+    from .props import PROPS
+    checks = []
+    for pid in sorted(PROPS):
+        c = PROPS[pid]
+        checks.append(dict(
+            property_id=pid,
+            quick_cmd='./check %s --tier quick' % pid,
+            thorough_cmd='./check %s --tier thorough' % pid,
+            evidence_file='/verif/evidence/%s.json' % pid,
+            replay_cmd_template='./check %s --replay {path}' % pid,
+            engine='vt',
+            level_claimed=dict(category='proof', text=c.get('level_text', c.get('claim', '')), design_ref=c.get('design_ref', 'DESIGN.md section 6')),
+            level_note=c.get('level_note', ''),
+            technique=c.get('technique', 'contract-based deductive verification (Verus) of functions extracted mechanically from /repo on every run'),
+        ))
+    na = [dict(property_id=k, reason=v) for k, v in sorted(NOT_APPLICABLE.items()) if k not in PROPS]
+    import subprocess
+    hooks = subprocess.run(['git', '-C', '/repo', 'log', '--format=%h %s'], stdout=subprocess.PIPE).stdout.decode().split('\n')
+    hook_commits = [h.split()[0] for h in hooks if h and 'verif hook' in h]
+    m = dict(
+        version=1,
+        setup_cmd='python3 -c "import sys; sys.path.insert(0, \'/verif\'); import vt.driver" && verus --version',
+        hooks=dict(guard='cargo feature `verif` (and cfg(kani), set by Kani itself)',
+                   enable='cargo test --offline --features verif --lib verif_rac (probe/replay driver only; Verus reads the sources and needs no hook); cargo kani sets cfg(kani)',
+                   baseline_off_cmd='cd /repo && cargo test --workspace --no-fail-fast --offline',
+                   source_commits=hook_commits, add_only=True),
+        engines=[dict(name='vt', path='/verif/vt', serves_properties=sorted(PROPS),
+                      kind_free_text='extractor + rule table + diff-transport weaver + Verus runner + classifier (python3); contracts in /verif/contracts')],
+        checks=checks,
+        not_applicable=na,
+        notes='See DESIGN.md. exit 0 = every obligation discharged; exit 1 = a named obligation generated from /repo failed (VIOLATION); exit 2 = undecided (tool limit / lost anchor / rlimit), never an alarm.',
+    )
+    json.dump(m, open(os.path.join(VERIF, 'MANIFEST.json'), 'w'), indent=1)
+    import jsonschema
+    jsonschema.validate(m, json.load(open('/root/.vp/MANIFEST.schema.json')))
+    print('MANIFEST.json written: %d checks, %d not applicable' % (len(checks), len(na)))
+
+
+def validate():
+    import jsonschema, glob
+    sch = json.load(open('/root/.vp/EVIDENCE.schema.json'))
+    for f in sorted(glob.glob(os.path.join(VERIF, 'evidence', '*.json'))):
+        jsonschema.validate(json.load(open(f)), sch)
+        print('valid', f)
+    jsonschema.validate(json.load(open(os.path.join(VERIF, 'MANIFEST.json'))), json.load(open('/root/.vp/MANIFEST.schema.json')))
+    print('valid MANIFEST.json')
+
+
 if __name__ == '__main__':
     cmd = sys.argv[1]
     globals()[cmd](*sys.argv[2:])
